@@ -439,7 +439,7 @@ func entries(addrs []string) []entry {
 func TestC43(t *testing.T) {
 	run := mon.Start(t, "C43", "exploration",
 		"complete enumeration of {client, Dedicated(fn), Dedicate(), Nodes()[a], Nodes()[a].Dedicated(fn), Nodes()[a].Dedicate()} (two node addresses) x every request method the surface has "+
-			"(7 on Client, 3 on DedicatedClient) x hook behaviour {answers with its own sentinel, delegates to the client it was given}; each combination repeated with random argument values "+
+			"(7 on Client, 3 on DedicatedClient) x hook behaviour {answers with its own sentinel, delegates to the client it was given} x {plain client wrapped, an already hooked client wrapped (stacked hooks)}; each combination repeated with random argument values "+
 			"(contexts, commands, batch sizes 0..4, ttls, error/value results); a case is distinct by path|method|hook-behaviour and all of them are non-trivial")
 	defer run.Finish()
 	run.Assume("the inner client's Nodes() returns a fresh map on each call, as singleClient/clusterClient/sentinelClient do (hookclient.Nodes rewrites the map it gets in place)",
@@ -455,10 +455,16 @@ func TestC43(t *testing.T) {
 		}
 		for _, m := range ms {
 			for _, delegate := range []bool{false, true} {
-				combos++
-				fp := fmt.Sprintf("%s|%s|delegate=%v", e.path, m, delegate)
-				for r := 0; r < reps; r++ {
-					checkOne(run, rng, addrs, e, m, delegate, fp, r)
+				for _, stacked := range []bool{false, true} {
+					combos++
+					fp := fmt.Sprintf("%s|%s|delegate=%v", e.path, m, delegate)
+					if stacked {
+						// the client being wrapped is itself a hooked client (WithHook(WithHook(c, under), hook))
+						fp += "|stacked"
+					}
+					for r := 0; r < reps; r++ {
+						checkOne(run, rng, addrs, e, m, delegate, stacked, fp, r)
+					}
 				}
 			}
 		}
@@ -468,7 +474,7 @@ func TestC43(t *testing.T) {
 	run.Require("hook_fired", "inner_reached_by_delegation", "sentinel_returned")
 }
 
-func checkOne(run *mon.Run, rng *rand.Rand, addrs []string, e entry, m string, delegate bool, fp string, rep int) {
+func checkOne(run *mon.Run, rng *rand.Rand, addrs []string, e entry, m string, delegate, stacked bool, fp string, rep int) {
 	l := &log{}
 	a := newArgs(rng)
 	// every fake has its own recognisable results, so a result coming from the wrong place is noticed
@@ -486,7 +492,14 @@ func checkOne(run *mon.Run, rng *rand.Rand, addrs []string, e entry, m string, d
 		outs[n.name], outs[n.ded.name] = n.out, n.ded.out
 	}
 	hook := &countingHook{l: l, out: newResults(rng, "hook", a.n), delegate: delegate}
-	wrapped := rueidishook.WithHook(root, hook)
+	var base rueidis.Client = root
+	l2 := &log{}
+	if stacked {
+		// a pass-through hook underneath, with its own log: the outer hook must still fire exactly once on every path,
+		// and the one underneath exactly as often as the outer hook delegates
+		base = rueidishook.WithHook(root, &countingHook{l: l2, out: newResults(rng, "under", a.n), delegate: true})
+	}
+	wrapped := rueidishook.WithHook(base, hook)
 
 	want := hook.out
 	if delegate {
@@ -542,6 +555,16 @@ func checkOne(run *mon.Run, rng *rand.Rand, addrs []string, e entry, m string, d
 		return
 	}
 	run.Observe("hook_fired", 1)
+	if stacked {
+		under, wantUnder := l2.requests(true), 0
+		if delegate {
+			wantUnder = 1
+		}
+		if len(under) != wantUnder || (wantUnder == 1 && under[0].method != m) {
+			run.Violation("stacked-hook-count", fp, witness(fmt.Sprintf("the hook underneath fired %d times, want %d (%s)", len(under), wantUnder, m)))
+			return
+		}
+	}
 	// 2. with the caller's arguments
 	if d := sameArgs(rng, m, hooks[0], a); d != "" {
 		run.Violation("hook-arguments", fp, witness(d))
